@@ -13,10 +13,12 @@ from sx.core import Sym
 
 PROPERTY = "C07"
 LEVEL = "model_checking"
-BOUNDS = {"hours_per_series": "N=2", "skeletons": "T1..T5, T7 (+ depth-1 edits in thorough)",
+BOUNDS = {"hours_per_series": "N=2", "skeletons": "T1..T5, T7, TX (+ depth-1 edits in thorough); builder systems: video streaming, web application, generative AI on a GPU server, cloud-instance server",
           "nodes": "every node reachable through left_parent/right_parent from every calculated attribute"}
-ASSUMPTIONS = ["a leaf that is not an attached input is accepted only if it is a labelled constant (exactly 1 hour or a "
-               "zero quantity)", "operators checked arithmetically: + - * / ; other operators (max, ceil, shift, sum ...) "
+ASSUMPTIONS = ["builder systems: node values compared up to a relative 1e-12 (non-round float constants of data tables converted between units by the real code)",
+               "a leaf that is not an attached input is accepted only if it is a labelled constant (exactly 1 hour or a "
+               "zero quantity) or a labelled value that carries a source (constants and hypotheses the builder classes state "
+               "with their provenance)", "operators checked arithmetically: + - * / ; other operators (max, ceil, shift, sum ...) "
                "only structurally"]
 
 
@@ -81,7 +83,7 @@ def is_constant_leaf(node):
     return False
 
 
-def check_tree(ctx, owner, attr, root, seen):
+def check_tree(ctx, owner, attr, root, seen, tolerant=False):
     stack = [root]
     while stack:
         node = stack.pop()
@@ -99,10 +101,13 @@ def check_tree(ctx, owner, attr, root, seen):
             if attached:
                 cont = node.modeling_obj_container
                 is_input = node.attr_name_in_mod_obj_container not in cont.calculated_attributes
-                ctx.require(is_input, f"{where}: attached leaf is an input", f"{node.label}")
+                # a calculated attribute without parents is accepted only as a sourced constant chosen by a builder
+                # ("request duration from hypothesis"); without a source it is an intermediate result that lost its parents
+                ctx.require(is_input or node.source is not None, f"{where}: attached leaf is an input", f"{node.label}")
                 ctx.require(node.source is not None, f"{where}: input leaf has a source", f"{node.label}")
             else:
-                ctx.require(is_constant_leaf(node), f"{where}: unattached leaf is a constant, not a hidden dependency",
+                ctx.require(is_constant_leaf(node) or node.source is not None,
+                            f"{where}: unattached leaf is a constant, not a hidden dependency",
                             f"leaf '{node.label}' = {str(node)[:60]}")
             continue
         for par in (lp, rp):
@@ -127,14 +132,14 @@ def check_tree(ctx, owner, attr, root, seen):
             ctx.require(dg == de, f"{where}: node '{node.operator}' has the dimension of its operands' combination",
                         f"{dg} vs {de}")
             for k in sorted(set(cg) | set(ce), key=str):
-                ctx.eq(cg.get(k, 0), ce.get(k, 0), lab)
+                (ctx.eq_rel if tolerant else ctx.eq)(cg.get(k, 0), ce.get(k, 0), lab)
 
 
 def _zero(v):
     return (not isinstance(v, Sym)) and float(v) == 0.0
 
 
-def walk_system(ctx, objs):
+def walk_system(ctx, objs, tolerant=False):
     seen = {}
     for name, o in objs.items():
         if not isinstance(o, ModelingObject):
@@ -154,7 +159,7 @@ def walk_system(ctx, objs):
                 except Exception as e:  # noqa
                     ok, txt = False, f"{type(e).__name__}: {e}"
                 ctx.require(ok, f"{name}.{attr} can be explained without error", str(txt)[:200])
-                check_tree(ctx, name, attr, val, seen)
+                check_tree(ctx, name, attr, val, seen, tolerant)
 
 
 def h_tree(ctx, skeleton, n, drivers, args=None, alt_units=None, values=None):
@@ -196,7 +201,36 @@ def h_tree(ctx, skeleton, n, drivers, args=None, alt_units=None, values=None):
     walk_system(ctx, objs)
 
 
-HARNESSES = {"tree": h_tree}
+def h_tree_builders(ctx, kind, choice):
+    """explanation trees of systems made with the builder classes (service jobs, GPU server, cloud-instance server)"""
+    from harness import c17
+    from efootprint.abstract_modeling_classes.source_objects import SourceObject
+    if kind == "cloud":
+        from efootprint.builders.hardware.boavizta_cloud_server import BoaviztaCloudServer
+        from efootprint.core.hardware.storage import Storage
+        from efootprint.core.hardware.server_base import ServerTypes
+        from efootprint.core.usage.job import Job
+        from efootprint.core.system import System
+        env = M.Env(ctx, symbolic={f"up.starts[{i}]": dict(lo=0, hi=1000, nice=(1, 40)) for i in range(2)} |
+                    {"pjob.ram_needed": dict(lo=0, hi=10 ** 4, nice=(10, 500)), "pjob.data_transferred": dict(lo=0, hi=10 ** 4, nice=(10, 500))})
+        st = Storage.from_defaults("st")
+        srv = BoaviztaCloudServer.from_defaults("srv", provider=SourceObject(choice[0]), instance_type=SourceObject(choice[1]),
+                                                server_type=ServerTypes.autoscaling(), storage=st)
+        job = Job("pjob", server=srv, **{p: c17.sv(env, f"pjob.{p}", d, un) for p, d, un in M.PARAMS["job"]})
+        A = dict(srv=srv, st=st, pjob=job, **c17.usage_side(env, [job]))
+        A["system"] = System("system", [A["up"]])
+    else:
+        env = M.Env(ctx, symbolic=c17.sym_for(kind))
+        A, _B = c17.build_pair(ctx, env, kind, choice, mixed=(kind != "genai"))
+        if kind == "genai":
+            ctx.assume(V.quantity_base(A["sjob"].request_duration.value)[1] <= 7200)
+    V.observe_system(ctx, A)
+    # builder classes bring in non-round float constants (benchmark tables, API responses) that the real code converts
+    # between units in floats: node values are compared up to a relative 1e-12
+    walk_system(ctx, A, tolerant=True)
+
+
+HARNESSES = {"tree": h_tree, "tree_builders": h_tree_builders}
 
 
 def plan(tier, seed):
@@ -205,6 +239,10 @@ def plan(tier, seed):
          ("tree", dict(skeleton="T4", n=2, drivers=["usage"])),
          ("tree", dict(skeleton="T5", n=2, drivers=["infra"])),
          ("tree", dict(skeleton="T7", n=2, drivers=["job"])),
+         ("tree_builders", dict(kind="video", choice="720p (1280 x 720)")),
+         ("tree_builders", dict(kind="web", choice=["php-symfony", "default"])),
+         ("tree_builders", dict(kind="genai", choice=["mistralai", "open-mistral-7b"])),
+         ("tree_builders", dict(kind="cloud", choice=["scaleway", "ent1-s"])),
          ("tree", dict(skeleton="TX", n=2, drivers=[])),
          ("tree", dict(skeleton="TX", n=2, drivers=["job"], args={"shared": True})),
          ("tree", dict(skeleton="T1", n=2, drivers=["infra", "job"], alt_units=0)),
